@@ -1,21 +1,18 @@
-(* C11 — the include list NewFilterFS assembles keeps the order of what it was given: it is a
-   sub-sequence of (user patterns ++ follow targets); without FollowPaths it is the user's list. *)
+(* C11 — the include list NewFilterFS assembles IS the list the property reads: the user's
+   patterns in order, then the follow targets; in particular it keeps the order of what it was
+   given, and without FollowPaths it is the user's list. *)
 From Coq Require Import List NArith Bool.
 From FS Require Import Sx Model.Path Model.Stat Model.Tree Model.Pattern Model.FilterWalk Model.FilterOpt
   Proofs.RefValidP.
 From FS Require Model.FollowLinks.
 Import ListNotations.
 
-Lemma dedupe_from_sub l : forall kept r, FollowLinks.dedupe_from kept l = Some r -> rsub eq r l.
-Proof.
-  induction l as [|s l IH]; intros kept r H; cbn [FollowLinks.dedupe_from] in H.
-  - inversion H. constructor.
-  - destruct (bytes_eqb s s_dot); [discriminate|].
-    destruct (existsb _ kept).
-    + apply rs_skip. eauto.
-    + destruct (FollowLinks.dedupe_from (s :: kept) l) as [r'|] eqn:E; [|discriminate].
-      inversion H; subst. apply rs_keep; [reflexivity|]. eauto.
-Qed.
+Lemma rsub_refl {A} (l : list A) : rsub eq l l.
+Proof. induction l; [constructor|apply rs_keep; auto]. Qed.
+
+Theorem assemble_is_stated view inc follow :
+  assemble_includes view inc follow = stated_includes view inc follow.
+Proof. reflexivity. Qed.
 
 Theorem assemble_keeps_order view inc follow l :
   assemble_includes view inc follow = FollowLinks.Ok l ->
@@ -25,8 +22,5 @@ Theorem assemble_keeps_order view inc follow l :
 Proof.
   unfold assemble_includes. destruct follow as [|f fs]; [intros H; inversion H; auto|].
   destruct (follow_targets view (f :: fs)) as [[ts|]|]; intros H; inversion H; subst; [|auto].
-  right. right. exists ts. split; auto.
-  destruct (FollowLinks.dedupe_paths (inc ++ ts)) as [r|] eqn:E.
-  - eapply dedupe_from_sub; eauto.
-  - apply rsub_nil_l.
+  right. right. exists ts. split; auto. apply rsub_refl.
 Qed.
